@@ -22,6 +22,7 @@ from .. import common
 from . import mps_common as mc
 
 FIND_INQ = 'C02:in-quantizer:mps-module-in-input-component'
+FIND_REUSE_IN = 'C02:in-precision:reused-layer:call-site-on-network-input'
 
 
 def _run_case(case):
@@ -80,6 +81,29 @@ def _run_case(case):
         if y.shape != y2.shape or not torch.equal(y, y2):
             d = float((y - y2).abs().max()) if y.shape == y2.shape else 'shape'
             res['fail'].append(('output', 'eval-mode MPS output differs from exported network: max abs diff %s' % d))
+        # ---- oracle 1b: a second export after the weights moved (selection unchanged) is again the
+        # eval-mode model ("for every value of the weights": export() must not return a stale network)
+        if case.get('two_exports'):
+            g2 = torch.Generator().manual_seed(cfg['xseed'] + 1)
+            with torch.no_grad():
+                for (tag, mi_, _), (rtag, name, mod, node) in zip(slots, mc.mps_slots(m)):
+                    if tag == 'L':
+                        mod.weight.add_(torch.randn(mod.weight.shape, generator=g2) * 0.1)
+                        if mod.bias is not None:
+                            mod.bias.add_(torch.randn(mod.bias.shape, generator=g2) * 0.1)
+            m.eval()
+            with torch.no_grad():
+                y3 = m(x)
+            e2 = m.export()
+            e2.eval()
+            with torch.no_grad():
+                y4 = e2(x)
+            if torch.equal(y3, y):
+                res['weights_moved_output_unchanged'] = True
+            if y3.shape != y4.shape or not torch.equal(y3, y4):
+                d = float((y3 - y4).abs().max()) if y3.shape == y4.shape else 'shape'
+                res['fail'].append(('second-export', 'after a weight update (same selection) the second export() differs from '
+                                    'the eval-mode model: max abs diff %s' % d))
         # ---- oracle 2: exported bit-widths are the ones summary() reports
         for summ, when in ((summ_before, 'just before export()'), (m.summary(), 'after the eval forward')):
             for name, l in e.named_modules():
@@ -132,6 +156,9 @@ def _gen_cases(rng, n):
         if k % 12 == 11:
             # one conv module applied to the outputs of two different producers (siamese branches)
             desc = mc.gen_siamese_desc(rng)
+        elif k % 12 == 8:
+            # one conv module invoked on the network input and on an inner tensor
+            desc = mc.gen_reuse_input_desc(rng)
         elif k % 12 == 2:
             # one conv module invoked twice whose results feed different sums
             desc = mc.gen_split_reuse_desc(rng)
@@ -141,9 +168,13 @@ def _gen_cases(rng, n):
         else:
             desc = mc.gen_desc(rng, first=first, conv_variants=(k % 2 == 0))
         cfg = mc.make_cfg(rng)
+        if desc.get('reuse_in'):
+            # network input and inner activations at different bit-widths, whatever the coefficients
+            cfg['ip'], cfg['ap'] = [rng.choice([4, 8])], [2]
         if k % 4 == 1:
             cfg['ties'] = 1      # tie stream: exactly equal top coefficients; the selection is the first maximum
-        cases.append({'kind': 'net', 'desc': desc, 'cfg': cfg, 'train_first': int(rng.random() < 0.4)})
+        cases.append({'kind': 'net', 'desc': desc, 'cfg': cfg, 'train_first': int(rng.random() < 0.4),
+                      'two_exports': int(k % 3 == 0)})
     return cases
 
 
@@ -157,6 +188,9 @@ def _judge(chk, case, res):
     """oracle verdicts of one case -> violations"""
     for what, msg in res['fail']:
         key = _key(res['class'], what, bool(case['cfg'].get('ties')))
+        if case['desc'].get('reuse_in') and what == 'in-precision':
+            chk.violation(FIND_REUSE_IN, msg, case)
+            continue
         if case['desc'].get('siamese'):
             key += ':reused-layer:call-sites-on-different-producers'
         if case['desc'].get('split'):
@@ -175,7 +209,8 @@ def run(chk):
                 'conv or a residual add directly on the network input) x precision tuples: 1..3 values of {2,4,8} in '
                 'random order, drawn separately for weights / activations / network input x coefficients with gaps '
                 '>= 1/16 per quantizer object x T in {0.05,0.3,1,5,20} x gumbel on/off x export after an eval forward '
-                'or right after a training forward; every 4th net draws its coefficients from the tie stream (exactly equal top '
+                'or right after a training forward; every 3rd net is exported a second time after a weight update with unchanged '
+                'selection; every 4th net draws its coefficients from the tie stream (exactly equal top '
                 'coefficients, selection = first maximum). non-trivial = at least two candidates for some quantizer; '
                 'distinct = distinct (program, tuples, coefficients)')
     chk.trusted.append('torch.fx tracing, BatchNorm fusion arithmetic, torch kernels and the quantizer functions '
@@ -216,11 +251,12 @@ def run(chk):
                            'dilation:%d' % o_.get('dil', 1), 'stride:%d' % ins[4 if ins[0] == 'conv' else 3]):
                     chk.hist[hk] = chk.hist.get(hk, 0) + 1
         chk.hist['train_first=%d' % case['train_first']] = chk.hist.get('train_first=%d' % case['train_first'], 0) + 1
-        rk = 'reuse:' + ('split-sums' if case['desc'].get('split') else 'siamese' if case['desc'].get('siamese') else ('one-producer' if any(i[0] == 'reuse' for i in case['desc']['prog']) else 'none'))
+        rk = 'reuse:' + ('on-network-input' if case['desc'].get('reuse_in') else 'split-sums' if case['desc'].get('split') else 'siamese' if case['desc'].get('siamese') else ('one-producer' if any(i[0] == 'reuse' for i in case['desc']['prog']) else 'none'))
         chk.hist[rk] = chk.hist.get(rk, 0) + 1
         chk.hist['T=%s' % case['cfg']['T']] = chk.hist.get('T=%s' % case['cfg']['T'], 0) + 1
         chk.hist['gumbel=%d' % case['cfg']['gumbel']] = chk.hist.get('gumbel=%d' % case['cfg']['gumbel'], 0) + 1
         tk = 'ties=%d' % int(bool(case['cfg'].get('ties')))
+        chk.hist['two_exports=%d' % case.get('two_exports', 0)] = chk.hist.get('two_exports=%d' % case.get('two_exports', 0), 0) + 1
         chk.hist[tk] = chk.hist.get(tk, 0) + 1
         _judge(chk, case, r)
         if r.get('finite') is False:
